@@ -914,14 +914,27 @@ class PreDef:
             @x;
             @x {...}
 
-        no nested yet!
+        The rule ends with the first ``;`` outside of any (), [] or {} or
+        with the ``}`` which closes its block.
         """
 
         def rule(tokens):
             saved = []
+            closing = {'{': '}', '[': ']', '(': ')'}
+            # closing brackets still expected
+            nesting = []
             for t in tokens:
                 saved.append(t)
-                if t[1] == '}' or t[1] == ';':
+                type_, val = t[0], t[1]
+                if type_ == 'FUNCTION':
+                    nesting.append(')')
+                elif val in closing:
+                    nesting.append(closing[val])
+                elif nesting and val == nesting[-1]:
+                    nesting.pop()
+                    if val == '}' and not nesting:
+                        return cssutils.css.CSSUnknownRule(saved)
+                elif not nesting and val in ('}', ';'):
                     return cssutils.css.CSSUnknownRule(saved)
 
         return Prod(
